@@ -78,10 +78,11 @@ class Subroutine(Scope):
         return tmp_list
 
     def resolve_arg_link(self, obj_tree):
-        if (self.args == "") or (len(self.in_children) > 0):
+        if len(self.in_children) > 0:
             return
-        arg_list = self.args.replace(" ", "").split(",")
-        arg_list_lower = self.args.lower().replace(" ", "").split(",")
+        # A procedure without arguments can still declare INTENT variables
+        arg_list = self.args.replace(" ", "").split(",") if self.args else []
+        arg_list_lower = [arg.lower() for arg in arg_list]
         self.arg_objs = [None] * len(arg_list)
         # check_objs = copy.copy(self.children)
         # for child in self.children:
